@@ -22,15 +22,23 @@ TYPES = {"proposer": 1, "attester": 2, "aggregator": 9}
 FINDING = "C04-component-stops-on-decide"
 
 
-def cfg_of(t, dev="FALSE"):
+def cfg_of(t, dev="FALSE", dev2="FALSE"):
     r = t[0]
     byz = r.get("byz") or []
-    return ("cl%s_n%d_i%d_b%s.cfg" % ("dev" if dev == "TRUE" else "", r["n"], r["inst"], "_".join(map(str, byz))),
-            CL_TMPL % {"N": r["n"], "Inst": r["inst"], "Byz": ", ".join(map(str, byz)), "Dev": dev})
+    tag = ("dev" if dev == "TRUE" else "") + ("inc" if dev2 == "TRUE" else "")
+    return ("cl%s_n%d_i%d_b%s.cfg" % (tag, r["n"], r["inst"], "_".join(map(str, byz))),
+            CL_TMPL % {"N": r["n"], "Inst": r["inst"], "Byz": ", ".join(map(str, byz)), "Dev": dev, "Dev2": dev2})
 
 
 def cfg_of_dev(t):
     return cfg_of(t, "TRUE")
+
+
+def cfg_of_dev_inc(t):
+    return cfg_of(t, "FALSE", "TRUE")
+
+
+FINDING_INC = "C04-inc-timer-late-leader-desync"
 
 
 # ----------------------------------------------------------------------------------------------------------------------
@@ -370,7 +378,7 @@ def stage(o, tier, seed, node_traces=True, probe_finding=True):
             bad = sorted({i for i, _, _ in v.rejected})[:6]
             _account(o, [sch[i] for i in range(len(sch)) if i not in bad], [main_tr[i] for i in range(len(sch)) if i not in bad], v, "cluster")
             vlib.conformance(o, FAMILY, "QBFTClusterTrace", cfg_of, PKG, [sch[i] for i in bad], tag="cluster_rejected",
-                             exec_timeout=600, tv_timeout=600, dev_cfgs=[(FINDING, cfg_of_dev)], max_report=4)
+                             exec_timeout=600, tv_timeout=600, dev_cfgs=[(FINDING, cfg_of_dev), (FINDING_INC, cfg_of_dev_inc)], max_report=4)
         else:
             _account(o, sch, main_tr, v, "cluster")
             vlib.binding_selftest(o, FAMILY, "QBFTClusterTrace", cfg_of, main_tr, mutators())
@@ -386,7 +394,7 @@ def stage(o, tier, seed, node_traces=True, probe_finding=True):
                                     % (reason, pos, json.dumps(probe_tr[0][pos] if pos < len(probe_tr[0]) else None)[:200])))
             else:   # rejected for another reason than the finding: standard treatment
                 vlib.conformance(o, FAMILY, "QBFTClusterTrace", cfg_of, PKG, batch[len(sch):], tag="cluster_probe",
-                                 exec_timeout=600, tv_timeout=600, dev_cfgs=[(FINDING, cfg_of_dev)])
+                                 exec_timeout=600, tv_timeout=600, dev_cfgs=[(FINDING, cfg_of_dev), (FINDING_INC, cfg_of_dev_inc)])
         if fm:
             try:
                 fm.result()     # raises what the thread raised (vlib.Infra)
